@@ -155,7 +155,9 @@ W = {'A': ('container', 'inf L', [('water', '2 L'), ('nacl', '0.2 mol'), ('lipas
      'G': ('container', 'inf L', [('nacl', '30 g'), ('na2so4', '12 g')]),
      'Z': ('container', 'inf L', [('lipase', '5000 U')]),
      'L': ('container', 'inf L', [('dmso', '1.5 L')]),
-     'D': ('container', 'inf L', []), 'K': ('container', '250 mL', [('water', '20 mL'), ('nacl', '10 mmol')])}
+     'D': ('container', 'inf L', []), 'K': ('container', '250 mL', [('water', '20 mL'), ('nacl', '10 mmol')]),
+     'R': ('plate', '1 mL', 2, 2), 'R2': ('plate', '1 mL', 2, 2)}
+PLATE_SEED = [T('K', 'R', '300 uL'), T('L', ['R', "(1, slice(None))"], '50 uL'), T('K', ['R2', "(slice(None), 1)"], '120 uL')]
 
 
 def direct_cases():
@@ -185,6 +187,15 @@ def direct_cases():
         for solvent in ('water', 'dmso'):
             acts.append({'op': 'create_solution_from', 'src': 'K', 'solute': 'nacl', 'conc': c, 'solvent': solvent, 'q': q,
                          'name': 'N'})
+    # plate operations: the line appended to every changed WELL is judged
+    for q in ('25 uL', '3 mg', '40 umol', '0.5 uL'):
+        acts += [T('K', 'R', q), T('K', ['R', "(1, 1)"], q), T('R', 'D', q), T(['R', "(slice(None), 2)"], 'D', q),
+                 T(['R', "(1, 1)"], ['R', "(2, slice(None))"], q), T(['R', "(1, slice(None))"], ['R', "(2, 2)"], q),
+                 T(['R', "(1, slice(None))"], ['R', "(2, slice(None))"], q), T('R', 'R2', q), T(['R', "'A:1'"], 'R2', q),
+                 T(['R', "(slice(None), 1)"], ['R2', "[(1, 2)]"], q)]
+    for q in ('600 uL', '0.9 g'):
+        acts += [{'op': 'fill_to', 'obj': 'R', 'solvent': 'water', 'q': q}, {'op': 'fill_to', 'obj': ['R', "(2, slice(None))"],
+                                                                               'solvent': 'dmso', 'q': q}]
     for cap in ('inf L', '100 mL', '2 L', '750 uL'):
         for contents in ([['water', '10 mL'], ['nacl', '5.844 g']], [['dmso', '250 uL'], ['lipase', '5 U']],
                          [['nacl', '3 mg'], ['na2so4', '20 ug']], [['water', '1.2 L']], [['lipase', '0.02 U'], ['water', '30 nL']], [],
@@ -200,7 +211,7 @@ _G = {}
 def _direct(ai):
     pp, vidx = _G['pp'], _G['vidx']
     act = _G['acts'][ai]
-    subs, world = e1.build(pp, vidx, W, [])
+    subs, world = e1.build(pp, vidx, W, PLATE_SEED)
     if act.get('q', '').startswith('@'):
         vu = pp.config.volume_storage_unit
         src = world[act['src']]
@@ -218,6 +229,30 @@ def _direct(ai):
     case = {'family': 'direct', 'vidx': vidx, 'act': act}
     op = act['op']
     new = obs['new']
+    plate_names = [n for n in ([e1.refname(act[k]) for k in ('src', 'dst', 'obj') if k in act]) if e1.is_plate(world.get(n))]
+    if plate_names:
+        before, after = [], []
+        for n in {e1.refname(act[k]) for k in ('src', 'dst', 'obj') if k in act}:
+            if e1.is_plate(world[n]):
+                before += list(world[n].wells.flatten())
+                after += list(new[n].wells.flatten())
+            else:
+                before.append(world[n])
+                after.append(new[n])
+        cands = candidates(pp, subs, before, after, requested(act.get('q', '')))
+        wnames = set(subs)
+        vs_all, ntok = [], 0
+        for wb, wa in zip(before, after):
+            ib, ia = wb.instructions or '', wa.instructions or ''
+            if ia == ib or not ia.startswith(ib):
+                continue
+            vs, k = check_text(pp, ia[len(ib):], cands, wnames, f"{e1.act_str(act)}: instructions of {wa.name}", case,
+                               f"well.instructions,{op}")
+            ntok += k
+            if vs:
+                vs_all = vs
+                break
+        return vs_all, ntok, ('ok', op + '/plate', ntok > 0)
     if op == 'transfer':
         s, d = act['src'], act['dst']
         cands = candidates(pp, subs, [world[s], world[d]], [new[s], new[d]], requested(act['q']))
@@ -301,6 +336,22 @@ def _program(prog_idx):
                            f"[{' ; '.join(e1.act_str(a) for a in program)}]", case, f"Container.instructions,{e2.step_kind(act)}")
         ntok += k
         out += vs
+    # wells of plates the step changed: the line(s) the step appended to each well's own instructions
+    wnames = names - set(e2.SPEC) - set(e2.CREATED) - {'A2'}       # 'of P well A,1': the object is named by two words
+    for n in sorted(involved):
+        oa, ob = states[i + 1].get(n), states[i].get(n)
+        if oa is None or not e1.is_plate(oa) or ob is None:
+            continue
+        for wb, wa in zip(ob.wells.flatten(), oa.wells.flatten()):
+            ib, ia = wb.instructions or '', wa.instructions or ''
+            if ia == ib or not ia.startswith(ib):
+                continue
+            vs, k = check_text(pp, ia[len(ib):], cands, wnames, f"instructions of {n}/{wa.name} after step {i} of "
+                               f"[{' ; '.join(e1.act_str(a) for a in program)}]", case, f"well.instructions,{e2.step_kind(act)}")
+            ntok += k
+            out += vs
+            if vs:
+                break
     return out, ntok, (e2.step_kind(act), ntok > 0)
 
 
